@@ -196,3 +196,59 @@ def gen_hang(pid, f):
         if run_witness(w)['violates']:
             return w
     return None
+
+# ------------------------------------------------------------------------------------------------
+# Connection level (C09 at the socket, C12, C13, C18): the same pipelined stream is sent to the REAL server over TCP
+# in one segment, request by request, and cut inside requests; the response bytes must be the same, and equal to what
+# the socket-less request path (decode -> handler -> encode) produces for that stream.
+def _sock(lines):
+    import subprocess
+    r = subprocess.run([replaytool.REPLAY_BIN, 'sock'], input='\n'.join(lines) + '\n', capture_output=True, text=True, timeout=60)
+    out = [l for l in r.stdout.split('\n') if l]
+    return ''.join(l[5:] for l in out if l.startswith('recv ')), any(l == 'eof' for l in out)
+
+def _session_resp(frames, limit):
+    ev = replaytool.run_session(['limit %d' % limit] + ['feed ' + f.hex() for f in frames])
+    return ''.join(e[5:] for e in ev if e.startswith('resp '))
+
+def sock_pipelines():
+    noop = hdr(0x0a, opaque=0x0a0a0a0a)
+    big = hdr(0x01, key=1, extras=8, body=3000) + b'\0' * 8 + b'k' + b'v' * 2991
+    P = []
+    P.append(('set get noop', 1048576, [f_set(b'a', b'1'), f_key(0, b'a'), noop]))
+    P.append(('noop quit trailing', 1048576, [noop, hdr(0x07, opaque=7), noop]))
+    P.append(('set get quitq trailing', 1048576, [f_set(b'a', b'1'), f_key(0, b'a'), hdr(0x17), f_key(0, b'a')]))
+    P.append(('quiet gets then noop', 1048576, [f_set(b'a', b'1', op=0x11), f_key(0x09, b'a'), f_key(0x0d, b'zz'), f_key(0x0d, b'a'), noop]))
+    P.append(('touch then noop', 1048576, [hdr(0x1c, key=1, extras=4, body=5) + b'\0\0\0\1k', noop]))
+    P.append(('oversized then gets', 1024, [big, f_key(0, b'k'), noop]))
+    P.append(('counters', 1048576, [f_delta(5, b'c', 1, 10, 0), f_delta(0x15, b'c', 5), f_delta(6, b'c', 100), f_key(0, b'c'), noop]))
+    P.append(('setq x3 then get', 1048576, [f_set(b'a', b'1', op=0x11), f_set(b'b', b'2', op=0x11), f_set(b'c', b'3', op=0x11), f_key(0, b'b')]))
+    return P
+
+@generator(r'server/(read_frame|skip_bytes|conn\.|client\.|handle\.safety|handle_frame|write)|codec_dec/(decode|parse_request|parse_header)')
+def gen_sock(pid, f):
+    for name, limit, frames in sock_pipelines():
+        stream = b''.join(frames)
+        want = _session_resp(frames, limit)
+        deliveries = {'one segment': [stream], 'request by request': frames}
+        cuts = []
+        off = 0
+        for fr in frames:
+            for c in (1, 24, len(fr) - 1):
+                if 0 < c < len(fr): cuts.append(off + c)
+            off += len(fr)
+        for c in cuts[:8]:
+            deliveries['cut at %d' % c] = [stream[:c], stream[c:]]
+        if len(stream) > 3000:
+            deliveries['cut inside the oversized body twice'] = [stream[:1024], stream[1024:2024], stream[2024:]]
+            deliveries['cut header / half body'] = [stream[:24], stream[24:1524], stream[1524:]]
+        for dn, chunks in deliveries.items():
+            lines = ['limit %d' % limit]
+            for ch in chunks:
+                lines += ['send ' + ch.hex(), 'sleep 60']
+            lines += ['recv 400']
+            got, eof = _sock(lines)
+            if got != want:
+                return {'kind': 'sock', 'lines': lines, 'expect_recv': want, 'what': 'pipeline "%s" delivered as "%s": the server answers %s..., the request path requires %s...' % (name, dn, got[:48], want[:48]),
+                        'required': 'the response bytes do not depend on segmentation and equal those of decode -> handler -> encode'}
+    return None
